@@ -207,6 +207,11 @@ func mutateValue(v []byte, kind string, c *TamperCtx) ([]byte, bool) {
 		return append([]byte{0}, v...), true
 	case "neg": // q - x : negation of a scalar
 		return setInt(new(big.Int).Mod(new(big.Int).Neg(x), c.Q))
+	case "neg-p": // p - x : the other coordinate value of the negated point
+		if c.P == nil || x.Sign() == 0 || x.Cmp(c.P) >= 0 {
+			return nil, false
+		}
+		return setInt(new(big.Int).Sub(c.P, x))
 	}
 	return nil, false
 }
